@@ -95,3 +95,34 @@ contract('gnpy.core.science_utils.RamanSolver.calculate_stimulated_raman_scatter
                   ('loss_budget_db', 'forall(lambda i: spec_lin2db(lp[i, last]) == -(LC(fiber) * fiber.params._length) - LUMP_DB(fiber), '
                                      'NCH(spectral_info))')],
          modifies=[])
+
+# ---------------------------------------------------------------- RamanFiber.propagate (Raman computation on): the two Raman solver
+# calls are opaque - they hand back a per-channel net attenuation profile v (> 0) and a spontaneous Raman ASE (>= 0), carried
+# here as ghost fields of the fibre; the contract fixes everything the element itself does around them
+from pyvc.vals import Obj as _Obj, Builtin as _Builtin, Mat as _Mat
+RAMANFIBER = obj('RamanFiber', **dict(FIBER.fields, ghost_profile=vec('n'), ghost_ase=vec('n'), actual_raman_gain=real()))
+OV_RAMAN_EL = {('gnpy.core.elements', 'RamanSolver'): lambda it: _Obj('<ns>', {
+    'calculate_stimulated_raman_scattering': _Builtin('srs', lambda it2, a, k: _Obj('<ns>', {
+        'loss_profile': _Mat(a[1].fields['ghost_profile'].n, 2, lambda i, j, v=a[1].fields['ghost_profile']: v.at(i))})),
+    'calculate_spontaneous_raman_scattering': _Builtin('spont', lambda it2, a, k: a[2].fields['ghost_ase'])})}
+contract('gnpy.core.elements.RamanFiber.propagate', props=['C05', 'C01'], overrides=OV_RAMAN_EL,
+         params={'self': RAMANFIBER, 'spectral_info': SI()}, spec=SPEC_LUMP,
+         let={'si': 'spectral_info', 'n': 'NCH(spectral_info)', 'p': 'self.params', 'v': 'self.ghost_profile', 'ase': 'self.ghost_ase',
+              'cd': 'self.chromatic_dispersion(spectral_info._frequency)'},
+         requires=[('inv', 'INV(spectral_info)'), ('length', 'self.params._length >= 0'),
+                   ('solver_profile_positive', 'forall(lambda i: self.ghost_profile[i] > 0, NCH(spectral_info))'),
+                   ('solver_ase_nonneg', 'forall(lambda i: self.ghost_ase[i] >= 0, NCH(spectral_info))')],
+         ensures=[('inv', 'INV(spectral_info)'),
+                  # padding + input connector in front of the Raman solver, its profile, then the output connector; the
+                  # spontaneous Raman ASE is added at the input side of the profile
+                  ('power_budget', 'forall(lambda i: si._pch[i] * spec_db2lin(p._con_out) == '
+                                   '(old(si._pch)[i] / spec_db2lin(p._con_in + p._att_in) + ase[i]) * v[i], n)'),
+                  ('cd_adds', 'forall(lambda i: si._chromatic_dispersion[i] == old(si._chromatic_dispersion)[i] + cd[i], n)'),
+                  ('latency_adds', 'forall(lambda i: si._latency[i] == old(si._latency)[i] + p._latency, n)'),
+                  ('pmd_quadrature', 'forall(lambda i: si._pmd[i] ** 2 == old(si._pmd)[i] ** 2 + p._pmd_coef ** 2 * p._length and si._pmd[i] >= 0, n)'),
+                  ('pdl_untouched', 'forall(lambda i: si._pdl[i] == old(si._pdl)[i], n)')],
+         modifies=['spectral_info._pch', 'spectral_info._signal_ratio', 'spectral_info._ase_ratio', 'spectral_info._nli_ratio',
+                   'spectral_info._chromatic_dispersion', 'spectral_info._pmd', 'spectral_info._latency',
+                   ('self.pch_out_dbm', vec_len('NCH(spectral_info)')), 'self.propagated_labels', 'self.actual_raman_gain'],
+         use_at_calls=False,
+         note='RamanSolver.calculate_stimulated_raman_scattering / calculate_spontaneous_raman_scattering are opaque (ghost results)')
